@@ -37,6 +37,9 @@ type Node struct {
 	FailReadAt  int  // >0: Read fails with EIO after this many bytes
 	FailReaddir bool
 	Vanish      bool // listed by the parent but gone when opened/lstat'ed
+	// Morph, if set, is what the entry has become by the time it is opened for reading
+	// (a type change between the first look and the open)
+	Morph *Node
 }
 
 // IsDir reports whether n is a directory.
@@ -218,6 +221,10 @@ func (f *file) MakeReadable() error {
 	if f.n.FailOpen {
 		simCount("fs-open-fail")
 		return pathError("open", f.path, syscall.EACCES)
+	}
+	if f.n.Morph != nil {
+		simCount("fs-type-changed")
+		f.n = f.n.Morph
 	}
 	f.meta = false
 	return nil
